@@ -11,7 +11,8 @@ import (
 // 3 j nested single-element lists around an empty list, 4 a U2 item of j values,
 // 5 a list of j one-character ASCII items, 6 j nested lists each of which declares as many
 // elements as there are bytes left behind its header (the most the decoder can be made to
-// believe), closed by an empty list: 3-byte length fields natively, 1-byte under the engine.
+// believe), closed by an empty list: 3-byte length fields natively, 1-byte under the engine;
+// 7 j nested two-element lists <L <U1[0]> <L ...>> (a leaf at every level).
 func zzFamily(fam, j int, sym bool) []byte {
 	fill := func(n int, lim byte) []byte {
 		if sym && n <= 8 {
@@ -66,6 +67,11 @@ func zzFamily(fam, j int, sym bool) []byte {
 			} else {
 				item = append(item, 0x03, byte(rem>>16), byte(rem>>8), byte(rem))
 			}
+		}
+		item = append(item, 0x01, 0x00)
+	case 7: // j nested two-element lists, each holding an empty U1 item and the next level
+		for i := 0; i < j; i++ {
+			item = append(item, 0x01, 0x02, 0xA5, 0x00)
 		}
 		item = append(item, 0x01, 0x00)
 	}
